@@ -81,3 +81,118 @@ Proof.
   - vm_compute. eexists. repeat split; reflexivity.
   - vm_compute. repeat split; reflexivity.
 Qed.
+
+(* ---------- nsync_wait_n records on the cv ---------- *)
+(* the F15 shape: reader 0 waits in read mode, thread 1 waits through nsync_wait_n (NULL, ...), thread 2 takes a read lock
+   and broadcasts: the first waiter is a reader that can acquire, the second record is not a mutex waiter, so
+   wake_waiters' acquiring CAS (which sets MU_WAITING) is taken (next != NULL && !all_readers) and transfers NOBODY; its
+   releasing CAS finds the mutex queue empty and takes MU_WAITING back; both are then woken directly *)
+Definition f15_progs : list (list xop) :=
+  [[XOp (OLock R); XWait R; XOp OUnlock]; [XWaitN None]; [XOp (OLock R); XBroadcast; XOp OUnlock]].
+Definition f15_s1 : list actor := map go [0;0;0;0;0;0; 1;1;1; 2; 2;2;2]%nat.    (* ... up to wake_waiters' first load *)
+Definition f15_s2 : list actor := map go [2]%nat.                                (* the acquiring CAS *)
+Definition f15_s3 : list actor := map go [2;2]%nat.                              (* load, releasing CAS *)
+Definition f15_s4 : list actor := map go [2;2;2;2; 2;2;2; 1;1;1;1; 0;0;0;0;0;0; 0;0;0]%nat.
+
+Lemma example_nobody_transferred :
+  let x1 := xrun (xinit f15_progs) f15_s1 in
+  let x2 := xrun x1 f15_s2 in
+  let x3 := xrun x2 f15_s3 in
+  let x4 := xrun x3 f15_s4 in
+  (cvq x1 = [] /\ (exists k old, x_pc (xget x1 2%nat) = XvCas1 k old /\ k_wake k = [0; 1]%nat /\ k_allr k = false) /\
+   nrec x1 0%nat = false /\ nrec x1 1%nat = true /\ holds (mw x1) 2%nat R /\ has (word (mw x1)) MU_WAITING = false) /\
+  (snd (xstep x1 (go 2%nat)) = XMu (EvCas 1002 256 262 true) /\
+   has (word (mw x2)) MU_WAITING = true /\ has (word (mw x2)) MU_SPINLOCK = true /\ queue (mw x2) = [] /\
+   xferred x2 0%nat = false /\ xferred x2 1%nat = false /\
+   exists k, x_pc (xget x2 2%nat) = XvLoad3 k /\ k_wake k = [0; 1]%nat /\ k_clr k = bor MU_SPINLOCK MU_WAITING) /\
+  (has (word (mw x3)) MU_WAITING = false /\ has (word (mw x3)) MU_SPINLOCK = false /\ queue (mw x3) = [] /\ word (mw x3) = 256) /\
+  (forall t, (t < 3)%nat -> x_done x4 t) /\ word (mw x4) = 0 /\ queue (mw x4) = [] /\ cvq x4 = [] /\
+  x_rets (xget x4 0%nat) = [(R, Some R)].
+Proof.
+  cbv zeta. split; [|split; [|split; [|split; [|split; [|split; [|split]]]]]].
+  - vm_compute. repeat split; try reflexivity. eexists; eexists; repeat split; reflexivity.
+  - vm_compute. repeat split; try reflexivity. eexists; repeat split; reflexivity.
+  - vm_compute. repeat split; reflexivity.
+  - intros t Ht. destruct t as [|[|[|t]]]; [| | |lia]; vm_compute; auto.
+  - vm_compute. reflexivity.
+  - vm_compute. reflexivity.
+  - vm_compute. reflexivity.
+  - vm_compute. reflexivity.
+Qed.
+
+(* nsync_wait_n with the mutex: enqueue while holding it, unlock, be woken by a signal issued under the lock (the record
+   is first on the list: pmu = NULL, wake_waiters never looks at the mutex), dequeue, lock again *)
+Definition wn_progs : list (list xop) :=
+  [[XOp (OLock W); XWaitN (Some W); XOp OUnlock]; [XOp (OLock W); XSignal; XOp OUnlock]].
+Definition wn_s1 : list actor := map go [0; 0;0;0;0;0; 1; 1;1]%nat.
+Definition wn_s2 : list actor := map go [1;1; 1; 0;0;0;0; 0; 0]%nat.
+Lemma example_waitn_mutex :
+  let x1 := xrun (xinit wn_progs) wn_s1 in
+  let x2 := xrun x1 wn_s2 in
+  ((exists om, x_pc (xget x1 0%nat) = XnSem om) /\ (exists k, x_pc (xget x1 1%nat) = XvStore k /\ k_wake k = [0%nat]) /\
+   cvq x1 = [] /\ waiting (mw x1) 0%nat = true /\ holds (mw x1) 1%nat W) /\
+  (forall t, (t < 2)%nat -> x_done x2 t) /\ word (mw x2) = 0 /\ x_rets (xget x2 0%nat) = [(W, Some W)].
+Proof.
+  cbv zeta. split; [|split; [|split]].
+  - vm_compute. repeat split; try reflexivity; eexists; try split; reflexivity.
+  - intros t Ht. destruct t as [|[|t]]; [| |lia]; vm_compute; auto.
+  - vm_compute. reflexivity.
+  - vm_compute. reflexivity.
+Qed.
+
+(* the two waiting flags of a thread (waiter struct / nsync_wait_n record) are never live together: a thread whose record
+   on the cv is an nsync_wait_n record is neither on the mutex queue nor on the wake list of a releaser, and it is not
+   inside a native cv wait *)
+Lemma record_kinds : forall progs sched p,
+  Z.of_nat (length progs) < 2 ^ 24 - 1 ->
+  let xw := xrun (xinit progs) sched in
+  nrec xw p = true ->
+  ~ In p (queue (mw xw)) /\ (forall u, ~ In p (wake_of (t_pc (get (mw xw) u)))) /\ wphase (x_pc (xget xw p)) = false /\
+  xaf xw p = false.
+Proof.
+  intros progs sched p H xw NR. destruct (xreachable_all progs sched H) as (HI & _ & HP & _). fold xw in HI, HP.
+  destruct HP as (HM & _). unfold nrec in NR.
+  assert (cvs xw p = true) as Cp by (unfold cvs; rewrite NR; apply orb_true_r).
+  pose proof (cvs_not_slp _ xw p HI Cp) as Sp. destruct HM as (_ & Hq & _ & Hw & _).
+  split; [|split; [|split]].
+  - intros Hin. destruct (Hq p Hin) as [_ X]. congruence.
+  - intros u Hin. rewrite wake_of_wl in Hin. destruct (Hw u p Hin) as (_ & X & _). congruence.
+  - destruct (x_pc (xget xw p)); try discriminate NR; reflexivity.
+  - unfold xaf. destruct (x_pc (xget xw p)); try discriminate NR; reflexivity.
+Qed.
+
+(* the cv side of the places invariant: a member of the cv queue or of the to_wake_list of a thread inside
+   nsync_cv_signal / broadcast / wake_waiters has its waiting flag set, is in exactly one of these lists once, and is a
+   native waiter parked in nsync_cv_wait that has not been transferred, or the record of an nsync_wait_n call *)
+Lemma cv_members : forall progs sched p,
+  Z.of_nat (length progs) < 2 ^ 24 - 1 ->
+  let xw := xrun (xinit progs) sched in
+  In p (cvq xw) \/ (exists u, In p (kws xw u)) ->
+  waiting (mw xw) p = true /\
+  ((wph2 (x_pc (xget xw p)) = true /\ xferred xw p = false) \/ nrec xw p = true) /\
+  (In p (cvq xw) -> forall u, ~ In p (kws xw u)) /\ (forall u1 u2, In p (kws xw u1) -> In p (kws xw u2) -> u1 = u2).
+Proof.
+  intros progs sched p H xw Hin. destruct (xreachable_all progs sched H) as (_ & _ & HP & _). fold xw in HP.
+  destruct HP as (_ & HC & _). destruct HC as (_ & Hq & _ & Hw & Hd).
+  assert (waiting (mw xw) p = true /\ cvs xw p = true) as [Wp Cp].
+  { destruct Hin as [Hin | [u Hin]]; [apply (Hq p Hin) | destruct (Hw u p Hin) as (a & b & _); auto]. }
+  split; [exact Wp|]. split; [|split].
+  - unfold nrec. destruct (xn_rec (x_pc (xget xw p))) eqn:NR; [right; reflexivity | left; apply cvs_native; assumption].
+  - intros Iq u Iu. destruct (Hw u p Iu) as (_ & _ & X). contradiction.
+  - intros u1 u2. apply Hd.
+Qed.
+
+(* while wake_waiters works with pmu (before and at its acquiring CAS) the first element of its list is a native waiter *)
+Lemma wake_head_native : forall progs sched t k f,
+  Z.of_nat (length progs) < 2 ^ 24 - 1 ->
+  let xw := xrun (xinit progs) sched in
+  x_pc (xget xw t) = XvLoad1 k \/ (exists old, x_pc (xget xw t) = XvCas1 k old) -> hd_error (k_wake k) = Some f ->
+  nrec xw f = false /\ wph2 (x_pc (xget xw f)) = true /\ xferred xw f = false /\ waiting (mw xw) f = true.
+Proof.
+  intros progs sched t k f H xw Pc Hd. destruct (xreachable_all progs sched H) as (_ & _ & HP & _). fold xw in HP.
+  destruct HP as (_ & HC & _ & HN).
+  assert (vhd (x_pc (xget xw t)) = Some f) as Hv by (destruct Pc as [-> | [old ->]]; exact Hd).
+  pose proof (HN t f Hv) as NR. destruct (vhd_in _ _ Hv) as [Hin _]. fold (kws xw t) in Hin.
+  destruct HC as (_ & _ & _ & Hw & _). destruct (Hw t f Hin) as (Wf & Cf & _).
+  destruct (cvs_native xw f Cf NR) as [W2 Xf]. auto.
+Qed.
